@@ -52,6 +52,15 @@ struct Pure<'r> {
 
 impl<'r> Pure<'r> {
     fn int_leaf(&mut self) -> Expr {
+        // the most negative value has no literal: it only arises as an expression; next to it -1, the other operand of the
+        // two operations that overflow only there (MIN / -1, MIN % -1, MIN * -1, -MIN, MIN - 1)
+        if self.rng.chance(1, 16) {
+            return match self.rng.below(3) {
+                0 => bin("sub", un("minus", int(9223372036854775807)), int(1)),
+                1 => un("minus", int(1)),
+                _ => bin("sub", un("minus", int(2147483647)), int(1)),
+            };
+        }
         let v: u64 = match self.rng.below(10) {
             0 => 0,
             1 => 1,
